@@ -233,6 +233,7 @@ pub fn run(sc: &Scenario) -> Outcome {
     let mut inflight_at_hold = 0u64;
     let mut host_issued = false;
     let mut cycles = 0u64;
+    let mut rehold = 0u64;
     // per snapshot step: ids that may or may not still be listed (host-side release in that step)
     let mut optional_at: BTreeMap<u64, BTreeSet<MsgId>> = BTreeMap::new();
     // expected iterator content is rebuilt after the pass from status history:
@@ -296,6 +297,31 @@ pub fn run(sc: &Scenario) -> Outcome {
                         for l in &links {
                             held_links.insert(*l);
                         }
+                        if !*by_host {
+                            // released (or hand-delivered) at this very boundary and not yet received:
+                            // no step has run since, so the message is still in flight and the hold
+                            // applies to it — independently of what the iterator lists
+                            let snap_set: BTreeSet<MsgId> = snapshot.as_ref().map(|v| v.iter().copied().collect()).unwrap_or_default();
+                            for id in order.iter() {
+                                if id.0 == P::Syn || !links.contains(&link_of(id.1, id.2)) || recv_pos.contains_key(id) {
+                                    continue;
+                                }
+                                if let St::Freed { at, .. } = status[id] {
+                                    // only for Sim-side releases / manual deliveries: a host-side release may
+                                    // already have been processed by a later send on the link in that step
+                                    let sim_side = freed.get(id).map(|(_, by_host)| !*by_host).unwrap_or(false);
+                                    if at == *step && sim_side {
+                                        if !snap_set.contains(id) {
+                                            out.fail(
+                                                "links-iterator-misses-released-but-undelivered-message",
+                                                format!("{id:?} was released at boundary {at} and no step has run since, yet Sim::links does not list it any more"),
+                                            );
+                                            return out;
+                                        }
+                                    }
+                                }
+                            }
+                        }
                         match snapshot {
                             Some(snap) => {
                                 for id in snap {
@@ -311,6 +337,7 @@ pub fn run(sc: &Scenario) -> Outcome {
                                         freed.remove(&key);
                                         status.insert(key, St::Held);
                                         n_held_total += 1;
+                                        rehold += 1;
                                         continue;
                                     }
                                     if links.contains(&link_of(key.1, key.2)) && status.get(&key) == Some(&St::Normal) {
@@ -588,6 +615,9 @@ pub fn run(sc: &Scenario) -> Outcome {
     if cycles >= 2 {
         out.label("repeated-cycles");
     }
+    if rehold > 0 {
+        out.label("re-held-before-delivery");
+    }
     if sc.tcp {
         out.label("tcp");
     }
@@ -647,7 +677,14 @@ pub fn strategy() -> BoxedStrategy<Scenario> {
                     let s0 = first.step % (traffic_steps / 2).max(1);
                     let s1 = s0 + 1 + (seed as u32 >> 8) % (traffic_steps / 2).max(1);
                     ctl[0] = CtlEv { step: s0, kind: Kind::Hold, ..first.clone() };
-                    ctl.push(CtlEv { step: s1, kind: Kind::Release, ..first });
+                    ctl.push(CtlEv { step: s1, kind: Kind::Release, ..first.clone() });
+                    if seed % 3 == 0 {
+                        // release and hold again at the same boundary (no step in between), release later
+                        ctl.push(CtlEv { step: s1, by: None, kind: Kind::Hold, ..first.clone() });
+                        ctl.push(CtlEv { step: s1 + 2 + (seed as u32 >> 12) % 4, kind: Kind::Release, ..first });
+                        let k = ctl.len();
+                        ctl[k - 3].by = None;
+                    }
                 }
                 ctl.sort_by_key(|c| c.step);
                 Scenario {
